@@ -165,6 +165,12 @@ static void body(Ctx& C)
          if (!spec) S.refused(w, "reserved");
          if (!qual) Q.refused(w, "reserved");
       }
+      // the other family's names, asked right after that family answered them (and right before): a name that is basic in one
+      // family is unknown to the other whatever was asked a moment ago
+      for (int rep = 0; rep < 2; ++rep) {
+         for (auto w : basic_specifier_words) { Q.refused(w, "basic-specifier-name"); (void)S.of_name(w); Q.refused(w, "basic-specifier-name-right-after-the-specifier-lookup"); Q.refused(w, "basic-specifier-name"); C.count("cross_family_lookups"); }
+         for (auto w : basic_qualifier_words) { S.refused(w, "basic-qualifier-name"); (void)Q.of_name(w); S.refused(w, "basic-qualifier-name-right-after-the-qualifier-lookup"); S.refused(w, "basic-qualifier-name"); C.count("cross_family_lookups"); }
+      }
       for (auto w : { u8"", u8"Static", u8"static ", u8"stati", u8"const_", u8"Const", u8"noexcept", u8"signed", u8"x" }) {
          S.refused(w, w[0] ? "dynamic" : "empty"); Q.refused(w, w[0] ? "dynamic" : "empty");
       }
